@@ -39,6 +39,13 @@ ManifestParser::ManifestParser(State* state, FileReader* file_reader,
 bool ManifestParser::Parse(const string& filename, const string& input,
                            string* err) {
   lexer_.Start(filename, input);
+  // Remembered, in canonical form, to recognize a file that is included again
+  // while it is still being parsed (see ParseFileInclude).
+  filename_ = filename;
+  if (!filename_.empty()) {
+    uint64_t slash_bits;
+    CanonicalizePath(&filename_, &slash_bits);
+  }
 
   for (;;) {
     Lexer::Token token = lexer_.ReadToken();
@@ -435,7 +442,19 @@ bool ManifestParser::ParseFileInclude(bool new_scope, string* err) {
   string path = eval.Evaluate(env_);
 
   // A file that (directly or indirectly) includes itself would otherwise
-  // recurse until the stack overflows.
+  // recurse until the stack overflows - or, when it does so more than once
+  // per level, keep ninja busy for 2^depth file loads.
+  if (!path.empty()) {
+    string canonical = path;
+    uint64_t slash_bits;
+    CanonicalizePath(&canonical, &slash_bits);
+    for (const ManifestParser* p = this; p != nullptr; p = p->parent_) {
+      if (p->filename_ == canonical) {
+        return lexer_.Error("'" + path + "' includes itself (directly or "
+                            "through other files)", err);
+      }
+    }
+  }
   const int kMaxIncludeDepth = 100;
   if (include_depth_ >= kMaxIncludeDepth)
     return lexer_.Error("include/subninja nesting too deep", err);
@@ -443,6 +462,7 @@ bool ManifestParser::ParseFileInclude(bool new_scope, string* err) {
   if (subparser_ == nullptr) {
     subparser_.reset(new ManifestParser(state_, file_reader_, options_));
     subparser_->include_depth_ = include_depth_ + 1;
+    subparser_->parent_ = this;
   }
   if (new_scope) {
     subparser_->env_ = new BindingEnv(env_);
